@@ -545,19 +545,77 @@ def inline_new_temps(fn, r, stats, key):
     from . import webs
     webs.split(fn, fn_scope_locals(fn))          # a name assigned in two branches for two uses is two temporaries
     try:
-        return _inline_new_temps(fn, ref_names, params, stats, key)
+        k = sink_joined_temps(fn, ref_names, params, stats, key)
+        return k + _inline_new_temps(fn, ref_names, params, stats, key)
     finally:
         webs.merge(fn)
+
+
+def _branch_tails(s):
+    """[(block, index)] of the last statement of every branch of the if/elif/else statement s, or None if a branch is missing/empty"""
+    if not isinstance(s, ast.If) or not s.orelse:
+        return None
+    out = []
+    for blk in (s.body, s.orelse):
+        if not blk:
+            return None
+        last = blk[-1]
+        if isinstance(last, ast.If):
+            sub = _branch_tails(last)
+            if sub is None:
+                return None
+            out.extend(sub)
+        else:
+            out.append((blk, len(blk) - 1))
+    return out
+
+
+def sink_joined_temps(fn, ref_names, params, stats, key):
+    """`if c: v = E1 else: v = E2` followed by one statement using the NEW name v once  ==>  that statement moved into each branch with
+    E1 / E2 in place of v (the inverse of "hoist the common tail of the branches"/"single exit"): the same operations in the same order."""
+    done = 0
+
+    def blk(stmts):
+        nonlocal done
+        i = 0
+        while i < len(stmts):
+            s = stmts[i]
+            for f in ('body', 'orelse', 'finalbody'):
+                v = getattr(s, f, None)
+                if isinstance(v, list) and v and isinstance(v[0], ast.stmt) and not isinstance(s, (ast.FunctionDef, ast.AsyncFunctionDef, ast.ClassDef)):
+                    blk(v)
+            if isinstance(s, ast.Try):
+                for hd in s.handlers:
+                    blk(hd.body)
+            tails = _branch_tails(s) if i + 1 < len(stmts) else None
+            if tails:
+                lasts = [b[j] for b, j in tails]
+                if all(isinstance(x, ast.Assign) and len(x.targets) == 1 and isinstance(x.targets[0], ast.Name) for x in lasts) \
+                        and len({x.targets[0].id for x in lasts}) == 1:
+                    v = lasts[0].targets[0].id
+                    u = stmts[i + 1]
+                    total = sum(1 for n in ast.walk(fn) if isinstance(n, ast.Name) and n.id == v and isinstance(n.ctx, ast.Load))
+                    if v.split('\x01')[0] not in ref_names and v not in params and isinstance(u, (ast.Assign, ast.Return, ast.Expr, ast.AugAssign)) \
+                            and _use_count([u], v) == (1, False) and total == 1 \
+                            and not any(isinstance(n, ast.Name) and n.id == v and isinstance(n.ctx, ast.Store) for n in ast.walk(u)):
+                        for (b, j), x in zip(tails, lasts):
+                            b[j] = ast.copy_location(_Subst({v: x.value}).visit(copy.deepcopy(u)), x)
+                        del stmts[i + 1]
+                        done += 1
+                        continue
+            i += 1
+    blk(fn.body)
+    if done and stats is not None:
+        stats.append((key, 'moved %d common tails back into their branches' % done))
+    return done
 
 
 def _inline_new_temps(fn, ref_names, params, stats, key):
     own = fn_scope_locals(fn)
     cand = [n for n in own if n.split('\x01')[0] not in ref_names and n not in params]
     done = 0
-    order = {}
-    for i, n in enumerate(_preorder(fn)):
-        order[id(n)] = i
     for v in cand:
+        order = {id(n): i for i, n in enumerate(_preorder(fn))}
         stores = [n for n in ast.walk(fn) if isinstance(n, ast.Name) and n.id == v and isinstance(n.ctx, (ast.Store, ast.Del))]
         others = [n for n in ast.walk(fn) if (isinstance(n, ast.arg) and n.arg == v) or (isinstance(n, ast.ExceptHandler) and n.name == v)]
         if len(stores) != 1 or others:
@@ -585,8 +643,10 @@ def _inline_new_temps(fn, ref_names, params, stats, key):
         operands = _names_read(st.value)
         last = max(order[id(n)] for n in loads)
         bad = False
-        loop_anc = _enclosing_loops(fn, st)
+        inside = {id(n) for n in ast.walk(st)}
         for n in ast.walk(fn):
+            if id(n) in inside:
+                continue            # the comprehension variables of the moved expression itself
             if isinstance(n, ast.Name) and n.id in operands and isinstance(n.ctx, (ast.Store, ast.Del)):
                 if pos < order[id(n)] <= last or any(lp in _enclosing_loops(fn, n) for lp in _loops_between(fn, st, loads)):
                     bad = True
